@@ -9,6 +9,7 @@ with the temporaries the code allocates.  Buffers/aliasing as in `Model/Lincomb.
 with the extracted program).  `multiply`/`divide` are NumPy's entry-wise ufuncs with `out=`.
 -/
 import OdlModel.Model.Lincomb
+import OdlModel.Model.CRat
 namespace OdlModel.ElemOps
 open OdlModel.Lincomb
 
@@ -298,6 +299,67 @@ def Op.execP (lc : LC K) (op : Op) (xs ys ts : List Nat) (c : K) (m : Mem K) :
   | .pos => (plincomb1 lc 1 xs ts m).map (·, ts)
   | .setZero => (plincomb lc xs xs xs 0 0 m).map (·, xs)
   | .assign => (plincomb1 lc 1 ys xs m).map (·, xs)
+
+/-! ## `NumpyTensor` / `DiscretizedSpaceElement` overrides: `copy`, `conj`, `real` / `imag`
+setters, the exponent test of `__ipow__`
+
+Each is one NumPy call behind a small branch on `space.is_real` / `out is None`; the model is
+the branch structure plus the entry-wise map. The discretized versions delegate to the
+tensor (`self.tensor.conj(out=out.tensor)`, `self.tensor.real = newreal`, …), so in terms
+of buffers they are the same functions. -/
+
+/-- `x.copy()` = `self.space.element(self.data.copy())`: NumPy copies into the fresh buffer
+`t`, which the new element wraps. -/
+def tcopy (x t : Nat) (m : Mem K) : Mem K × Nat := (m.write t (m x), t)
+
+/-- `x.conj(out)` of `NumpyTensor`, branch by branch; `cj` is the scalar conjugation, `out` the
+buffer of the given `out` element (`none`: not given), `t` the fresh buffer. Returns the
+memory and the buffer of the returned element.
+Real space: `out is None → return self`; otherwise `out[:] = self; return out`.
+Complex space: `out is None → space.element(self.data.conj())`; otherwise
+`self.data.conj(out.data); return out`.
+(Integer dtypes: `space.is_real` is false, so the second pair of branches runs, but
+`ndarray.conj()` of a non-complex array is the array itself: the returned element wraps the
+buffer of `self`, and `conj(out.data)` copies. In terms of buffers this is the `isReal`
+case, and the harness sends it as such.) -/
+def tconj (cj : K → K) (isReal : Bool) (x : Nat) (out : Option Nat) (t : Nat) (m : Mem K) :
+    Mem K × Nat :=
+  if isReal then
+    match out with
+    | none => (m, x)
+    | some o => (m.write o (m x), o)
+  else
+    match out with
+    | none => (m.write t (fun i => cj (m x i)), t)
+    | some o => (m.write o (fun i => cj (m x i)), o)
+
+/-- `x.real = newreal` : `self.real.data[:] = newreal`. On a real space `self.real is self`;
+on a complex space `self.real` wraps the VIEW `self.data.real`, so the write reaches the real
+parts of `x` and leaves the imaginary parts. `v` = the (real) values assigned, as read before
+the write (NumPy buffers overlapping operands, e.g. `x.real = x.imag`). -/
+def setReal (isReal : Bool) (x : Nat) (v : Vec CRat) (m : Mem CRat) : Mem CRat :=
+  if isReal then m.write x (fun i => ⟨(v i).re, 0⟩)
+  else m.write x (fun i => ⟨(v i).re, (m x i).im⟩)
+
+/-- `x.imag = newimag` : real space → `ValueError` (`none`); complex →
+`self.imag.data[:] = newimag` through the view `self.data.imag`. -/
+def setImag (isReal : Bool) (x : Nat) (v : Vec CRat) (m : Mem CRat) : Option (Mem CRat) :=
+  if isReal then none
+  else some (m.write x (fun i => ⟨(m x i).re, (v i).re⟩))
+
+/-- Where `x **= p` goes for a rational exponent. `LinearSpaceElement.__ipow__`:
+`int(p) != p → ValueError`. `NumpyTensor.__ipow__`: `other == int(other)` → the generic
+recursion, otherwise `np.power(self.data, other, out=self.data)` (outside exact arithmetic).
+`DiscretizedSpaceElement.__ipow__` calls the tensor's. -/
+inductive IpowRoute
+  | generic (p : Int)     -- LinearSpaceElement.__ipow__ with the integer value of p
+  | npPower               -- np.power with a non-integer exponent
+  | raises                -- ValueError('expected integer `p`')
+  deriving Repr, DecidableEq
+
+def ipowRoute (tensorOverride : Bool) (p : Rat) : IpowRoute :=
+  if p.den = 1 then .generic p.num
+  else if tensorOverride then .npPower else .raises
 
 /-! ## `LinearSpace.lincomb` argument checks (front end), in source order -/
 
